@@ -50,12 +50,43 @@ Proof. exact admitted_call_completes. Qed.
 Print Assumptions C03_admitted_call_completes.
 
 (* "observed open" through any view: in every reachable state the lock-free view and the
-   metrics snapshot show the same state as the async view *)
+   metrics snapshot show the same state as the async view — for every configuration (also
+   permitted_calls_in_half_open = 0, which the builder accepts) *)
 Theorem C03_views_agree :
   forall (cf : cfg) (evs : list ev),
-    1 <= permitted cf ->
     Forall (fun s => state_atomic (circ s) = state (circ s) /\
                      fst (fst (fst (fst (metrics cf (circ s))))) = state (circ s))
            (states (step_st cf) init evs).
-Proof. exact views_agree. Qed.
+Proof. exact views_agree_all. Qed.
 Print Assumptions C03_views_agree.
+
+(* The shield persists: while shielded, every event other than an operator's force_closed /
+   reset — in particular the late completion of a call admitted earlier, whatever its outcome,
+   a cancellation, a panic, force_open — leaves the breaker open with the SAME opening instant,
+   and the number of inner calls in flight does not grow (any state, any configuration). *)
+Theorem C03_shield_persists :
+  forall (cf : cfg) (s : st) (e : ev),
+    shielded cf s -> e <> ForceClosed -> e <> Reset ->
+    state (circ (step_st cf s e)) = Open /\
+    last_change (circ (step_st cf s e)) = last_change (circ s) /\
+    inflight (step_st cf s e) <= inflight s.
+Proof. exact shield_persists. Qed.
+Print Assumptions C03_shield_persists.
+
+(* The property's sentence, over runs of the step function that run_script executes: from ANY
+   state in which the breaker is open (opened at last_change), along ANY sequence of events
+   without force_closed / reset that ends before wait_duration_in_open has elapsed since the
+   opening instant: no event starts an inner call ([starts_in] = the trace's `started` fields),
+   and in every state passed the breaker is open with the same opening instant and no more inner
+   calls in flight than at the beginning. *)
+Theorem C03_interval :
+  forall (cf : cfg) (evs : list ev) (s : st),
+    state (circ s) = Open ->
+    Forall (fun e => e <> ForceClosed /\ e <> Reset) evs ->
+    now (fold_left (step_st cf) evs s) - last_change (circ s) < wait_open cf ->
+    Forall (fun b => b = false) (starts_in cf s evs) /\
+    Forall (fun s' => state (circ s') = Open /\ last_change (circ s') = last_change (circ s) /\
+                      inflight s' <= inflight s)
+           (states (step_st cf) s evs).
+Proof. exact interval. Qed.
+Print Assumptions C03_interval.
